@@ -10,7 +10,7 @@ CONFIG = dict(
          "with stale callbacks; 8% hostile op streams. Observation per op: code, chosen block, per block-list call (kind, callback results incl. the error logger's release count, visibility vector), "
          "visibility vector after the op; compared verbatim with the extracted model. non-trivial = a detection landed inside a Put; distinct = distinct input; "
          "class = where detections landed (mid-rotation / mid-put / outside / none)",
-    modelled=["increaseTotalBlocksToBeReleased's compare-and-swap loop is an atomic maximum (Go atomics trusted); callbacks run on the harness goroutine at the chosen positions (positions between two block-list calls of one Put are indistinguishable for the real code: at most one access to the atomic lies between them)",
+    modelled=["increaseTotalBlocksToBeReleased's compare-and-swap loop is one atomic maximum step in Store/Quarantine.v; Store/CasMax.v models the loop at Load/CompareAndSwap granularity for any number of concurrent calls and proves the abstraction's properties (cas_loop_is_atomic_maximum), but the two models are not composed; Go atomics trusted; callbacks run on the harness goroutine at the chosen positions (positions between two block-list calls of one Put are indistinguishable for the real code: at most one access to the atomic lies between them)",
               "uint64 counters do not reach 2^64; the wrapping subtraction in BlockReferenceToBlockIndex is modelled (boundary below the release counter hides every block)",
               "every fresh block holds the harness's two 1-byte probes (q_pb = 2); uploads larger than blockSize-2 but not larger than blockSize are not generated (they would rotate for ever)",
               "PushBack never fails (4096 device blocks); initialBlocksCount = 0 (restored block lists are C02/C03's subject)",
